@@ -153,6 +153,9 @@ package transport_controller
 //@   assert at call (*Entry).Info: forall u uint64 trigger dom(h.c.links, u) :: (u in h.c.links) && u != luuid ==> (h.c.links[u].lnk.GetRemotePeer() in h.c.linksByPeerID) && exists i int :: 0 <= i && i < len(h.c.linksByPeerID[h.c.links[u].lnk.GetRemotePeer()]) && h.c.linksByPeerID[h.c.links[u].lnk.GetRemotePeer()][i] == h.c.links[u]
 //@   assert at call (*Entry).Info: forall u uint64 trigger dom(h.c.links, u) :: (u in h.c.links) && u == luuid ==> (h.c.links[u].lnk.GetRemotePeer() in h.c.linksByPeerID) && exists i int :: 0 <= i && i < len(h.c.linksByPeerID[h.c.links[u].lnk.GetRemotePeer()]) && h.c.linksByPeerID[h.c.links[u].lnk.GetRemotePeer()][i] == h.c.links[u]
 //@   cs Controller.bcast ensures forall u uint64 trigger dom(self.links, u) :: u != lnk.GetUUID() ==> ((u in self.links) <==> old(u in self.links)) && self.links[u] == old(self.links[u])
+// a duplicate report (the link already registered under its UUID is this very link) changes nothing: the
+// same entry object stays
+//@   cs Controller.bcast ensures old(lnk.GetUUID() in self.links) && old(self.links[lnk.GetUUID()].lnk) == lnk ==> (lnk.GetUUID() in self.links) && self.links[lnk.GetUUID()] == old(self.links[lnk.GetUUID()])
 //@   cs Controller.bcast ensures (lnk.GetUUID() in self.links) && (!old(lnk.GetUUID() in self.links) || self.links[lnk.GetUUID()] != old(self.links[lnk.GetUUID()])) ==> self.links[lnk.GetUUID()].lnk == lnk
 //@   cs Controller.bcast ensures lnk.GetRemotePeer() == old(self.peerID) ==> ((lnk.GetUUID() in self.links) <==> old(lnk.GetUUID() in self.links)) && self.links[lnk.GetUUID()] == old(self.links[lnk.GetUUID()])
 
